@@ -293,6 +293,15 @@ class Ctx:
         under_cut = any(d for _, d in self.facts) or bool(self.cutdefs)
         self.obls.append(Obligation(name, kind, label, self.hyps(), goal, len(self.facts), len(self.cutdefs),
                                     f"{file}:{func}", line, meta or {}, under_cut))
+        if kind == "index-in-range" and self.notes.get("bumps"):
+            from .terms import subterm_ids
+            ids = subterm_ids([goal])
+            for bid, (bt, base, eps) in self.notes["bumps"].items():
+                if bid in ids and ("bump", bid) not in self.memo:
+                    self.memo[("bump", bid)] = bt
+                    # the real-arithmetic proof of this index bound compares against base + eps: re-discharged in IEEE-754
+                    self.oblige("ieee-bump-effective", z3.BoolVal(True), loc=loc, meta={"fp": True, "eps": str(eps), "base": str(base)[:80],
+                                                                                        "base_num": str(num(base)) if is_num(base) else None})
         return name
 
     def check(self, kind, goal, **kw):
